@@ -4,7 +4,7 @@
 //! count (exact under bm25); cursors are rejected after the index generation changed or under
 //! a different sort plan.
 use serde_json::{json, Value};
-use std::collections::{BTreeMap, HashSet};
+use std::collections::HashSet;
 use vcore::{Ctx, Local, Rng};
 
 #[path = "../shared/paging.rs"]
@@ -205,7 +205,7 @@ fn classify_diff(full: &[HitSig], got: &[HitSig]) -> &'static str {
 fn main() {
   let args: Vec<String> = std::env::args().skip(1).collect();
   let mut ctx = Ctx::from_args("C11", "exploration", &args);
-  ctx.rule = "per case one in-memory index (8-60 docs drawn from 2-7 distinct body texts and tiny value domains so that scores and sort values tie; 1-4 commits with upserts and deletes => several segments with tombstones; multi-valued, missing and long-decimal sort values). Per index 10-20 walks: random query (match_all/term/query string/bool) x optional filter x sort plan of 0-3 keys (_score/i64/f64/keyword, asc/desc/default) x bm25/wand/bmw(+block size) x page size 1-7. Each walk is compared with the single request with limit > #docs on the same reader (ids, order, score bits), every page's total_hits_estimate is compared with the true match count (= hits of the unpaged bm25 request, cross-checked against an independent evaluator of query+filter on the original JSON), then collected cursors are replayed under 3 other sort plans and after a commit that adds a segment / a compaction of >=2 segments / a delete-only commit. evaluations = walk comparisons + judged cursor replays. A walk is non-trivial (counted once by hash of corpus+request+page size) when it has >= 2 pages and does not match every or no document... (>= 2 pages suffices).".into();
+  ctx.rule = "per case one in-memory index (8-40 docs quick / 8-60 thorough, drawn from 2-7 distinct body texts and tiny value domains so that scores and sort values tie; 1-4 commits with upserts and deletes => several segments with tombstones; multi-valued, missing and long-decimal sort values). Per index 12-20 walks: random query (match_all/term/query string/bool) x optional filter x sort plan of 0-3 keys (_score/i64/f64/keyword, asc/desc/default) x bm25/wand/bmw(+block size) x page size 1-7. Each walk is compared with the single request with limit > #docs on the same reader (ids, order, score bits), every page's total_hits_estimate is compared with the true match count (= hits of the unpaged bm25 request, cross-checked against an independent evaluator of query+filter on the original JSON), then collected cursors are replayed under 3 other sort plans and after a commit that adds a segment / a compaction of >=2 segments / a delete-only commit. evaluations = walk comparisons + judged cursor replays. A walk is non-trivial (counted once by hash of corpus+request+page size) when it has >= 2 pages; counters report how many walks had a tie (equal primary sort value) straddling a page boundary, multi-segment indexes, tombstones, filters.".into();
   ctx.assumptions = vec![
     "the true match count is the hit count of the unpaged execution=bm25 request; when the independent evaluator (simple queries/filters only) disagrees with it the walk's totals are not judged (matching semantics belong to C07/C08)".into(),
     "total_hits_estimate is required to be exact only for execution=bm25 (the documented full evaluation); for wand/bmw only `<= true count` is judged".into(),
@@ -631,7 +631,6 @@ fn main() {
         }
       }
     }
-    let _unused: BTreeMap<String, Value> = BTreeMap::new();
     let _ = std::fs::remove_dir_all(&dir);
   });
   std::process::exit(ctx.finish());
